@@ -128,6 +128,8 @@ Record facts := {
   f_position_preserved : bool;                (* open_stream / find_adapter_for_stream hand back a stream that continues exactly at the
                                                  position the caller's file object was at (never sought elsewhere): the [bs] the read
                                                  paths below talk about is the content FROM THAT POSITION on *)
+  f_no_url_spellings : list (option bytes);   (* RecordReader's url values that mean "no url": the file object / standard input is
+                                                 taken and its container SNIFFED (None = argument omitted or None) *)
   f_header_read_len : nat;                    (* RecordStreamReader.readheader: self.fp.read(<this>) *)
   f_header_test : htest;                      (* ... and the test the bytes read must pass (else IOError) *)
   f_flag_deps : list (flag * list bytes);     (* base.py import block: the modules whose import decides each HAS_* flag *)
@@ -297,6 +299,28 @@ Definition adapter_for_url (F : facts) (url : bytes) : dispatch :=
    [decompress] the decompressor libraries,
    [parse]      the adapter's reader (RecordStreamReader / fastavro) applied to the plain bytes. *)
 
+(* a source as RecordReader normalises it: the file object / standard input (no url), or a url *)
+Inductive source := SrcStream | SrcUrl (u : bytes).
+
+Definition ourl_eqb (a b : option bytes) : bool :=
+  match a, b with None, None => true | Some x, Some y => beqb x y | _, _ => false end.
+
+Fixpoint ourl_list_eqb (a b : list (option bytes)) : bool :=
+  match a, b with
+  | [], [] => true
+  | x :: a', y :: b' => ourl_eqb x y && ourl_list_eqb a' b'
+  | _, _ => false
+  end.
+
+(* RecordReader(url=u, ...): None stands for an omitted / None argument *)
+Definition normalise_source (F : facts) (u : option bytes) : source :=
+  if existsb (ourl_eqb u) (f_no_url_spellings F) then SrcStream
+  else match u with Some x => SrcUrl x | None => SrcStream end.
+
+(* exactly the documented spellings of "standard input / no url": omitted or None, "", "-" *)
+Definition std_no_url : list (option bytes) := [None; Some []; Some (B "-")].
+Definition spellings_ok (F : facts) : bool := ourl_list_eqb (f_no_url_spellings F) std_no_url.
+
 Section ReadPaths.
 Variable F : facts.
 Variable e : env.
@@ -352,6 +376,13 @@ Definition read_fileobj (bs : bytes) : outcome :=
 (* RecordReader(url): adapter from extension / scheme, codec from open_path on the class url *)
 Definition read_url (url bs : bytes) : outcome :=
   let d := adapter_for_url F url in read_path (d_adapter d) (d_cls_url d) bs.
+
+(* The route is a function of the NORMALISED source only: how "no url" was spelled is not an input of the decision. *)
+Definition read_source (s : source) (bs : bytes) : outcome :=
+  match s with
+  | SrcStream => read_fileobj bs
+  | SrcUrl u => read_url u bs
+  end.
 
 End ReadPaths.
 
@@ -469,4 +500,4 @@ Definition flag_deps_ok (F : facts) : bool :=
 Definition facts_ok (F : facts) : bool :=
   sniff_chain_ok F && ext_chain_ok F && cont_chain_ok F && containers_vs_codecs_ok F && adapters_ok F &&
   f_writer_passthrough F && f_path_fallback_sniffs F && f_stdin_fallback_sniffs F && f_private_codec_state F &&
-  header_ok F && flag_deps_ok F && f_position_preserved F.
+  header_ok F && flag_deps_ok F && f_position_preserved F && spellings_ok F.
